@@ -84,6 +84,36 @@ pub const E0: OrderEntry = OrderEntry {
     key: (Side::Ask, 0, 0),
 };
 
+impl<const L: usize> OrderBook<L> {
+    /// number of orders ever created (harness observation for dependent crates)
+    pub fn verif_n_orders(&self) -> usize {
+        self.orders.len()
+    }
+}
+
+/// accessors for harnesses of dependent crates (`OrderEntry`'s fields are private to this module)
+pub fn entry_order(e: &OrderEntry) -> &Order {
+    &e.order
+}
+pub fn entry_key_time(e: &OrderEntry) -> Nanos {
+    e.key.2
+}
+pub fn entry_key(e: &OrderEntry) -> OrderKey {
+    e.key
+}
+/// the first `ntr0` trade records are still the ones in `old`
+pub fn old_trades_unchanged<const L: usize>(b: &OrderBook<L>, ntr0: usize, old: &[TradeRec; 2]) -> bool {
+    let mut same = b.trades.len() >= ntr0;
+    let mut k = 0;
+    while k < 2 {
+        if k < ntr0 && k < b.trades.len() {
+            same &= trade_eq(&trade_rec(&b.trades[k]), &old[k]);
+        }
+        k += 1;
+    }
+    same
+}
+
 // ------------------------------------------------------------------------------------------
 // symbolic pre-state  (representation invariant I, DESIGN.md §3.3)
 // ------------------------------------------------------------------------------------------
@@ -112,18 +142,13 @@ pub fn g_u32(wide: bool) -> u32 {
 pub fn g_u64(wide: bool) -> u64 {
     if wide { any_u64() } else { any_u8() as u64 }
 }
-/// an on-grid limit price strictly between 0 and MAX
+/// an on-grid limit price strictly between 0 and MAX (drawn as multiple * tick: a product with a
+/// small tick bit-blasts far better than a remainder by a symbolic divisor)
 pub fn g_price(wide: bool, tick: Price) -> Price {
-    if wide {
-        let p = any_u32();
-        assume(p > 0 && p < Price::MAX);
-        assume(p % tick == 0);
-        p
-    } else {
-        let k = any_u8() as u32;
-        assume(k >= 1);
-        k * tick
-    }
+    let k: u32 = if wide { any_u32() } else { any_u8() as u32 };
+    let p64 = (k as u64) * (tick as u64);
+    assume(p64 > 0 && p64 < Price::MAX as u64);
+    p64 as u32
 }
 
 /// plain (heap-free) image of a book: `n` table entries in a fixed array of capacity N
@@ -1238,17 +1263,17 @@ vharnesses! {
 
     // ---- C02: every view == recomputation from the order list; never crossed while trading
     #[cfg_attr(kani, kani::unwind(4))]
-    fn c02_place_bid_limit_m2() { step_place_new::<3, 2>(2, SYMTICK, G_VIEWS | G_INDEX, 0) }
+    fn c02_place_bid_limit_m2() { step_place_new::<3, 2>(2, CFG, G_VIEWS | G_INDEX, 0) }
     #[cfg_attr(kani, kani::unwind(4))]
-    fn c02_place_ask_limit_m2() { step_place_new::<3, 2>(2, SYMTICK, G_VIEWS | G_INDEX, 1) }
+    fn c02_place_ask_limit_m2() { step_place_new::<3, 2>(2, CFG, G_VIEWS | G_INDEX, 1) }
     #[cfg_attr(kani, kani::unwind(4))]
-    fn c02_place_bid_market_m2() { step_place_new::<3, 2>(2, SYMTICK, G_VIEWS | G_INDEX, 2) }
+    fn c02_place_bid_market_m2() { step_place_new::<3, 2>(2, CFG, G_VIEWS | G_INDEX, 2) }
     #[cfg_attr(kani, kani::unwind(4))]
-    fn c02_place_ask_market_m2() { step_place_new::<3, 2>(2, SYMTICK, G_VIEWS | G_INDEX, 3) }
+    fn c02_place_ask_market_m2() { step_place_new::<3, 2>(2, CFG, G_VIEWS | G_INDEX, 3) }
     #[cfg_attr(kani, kani::unwind(4))]
-    fn c02_cancel_m2() { step_cancel::<3, 2>(2, SYMTICK, G_VIEWS | G_INDEX) }
+    fn c02_cancel_m2() { step_cancel::<3, 2>(2, CFG, G_VIEWS | G_INDEX) }
     #[cfg_attr(kani, kani::unwind(4))]
-    fn c02_modify_m2() { step_modify::<3, 2>(2, SYMTICK, G_VIEWS | G_INDEX, 0, false) }
+    fn c02_modify_m2() { step_modify::<3, 2>(2, CFG, G_VIEWS | G_INDEX, 0, false) }
     #[cfg_attr(kani, kani::unwind(4))]
     fn c02_uncrossed_place_limit_m2() { step_place_new::<3, 2>(2, ON_UNCROSSED, G_UNCROSSED, 4) }
     #[cfg_attr(kani, kani::unwind(4))]
